@@ -439,7 +439,7 @@ func (b *Broker) sendMsgToClient(span *model.SpanContext, topic string, payload 
 
 	for clientID, subQoS := range subscribers {
 		if subQoS < qos {
-			return
+			continue
 		}
 		client := b.getClient(clientID)
 		if client == nil {
